@@ -232,7 +232,7 @@ func WriteModule(spec *synth.Spec, dir string) (string, error) {
 	if err := os.MkdirAll(dir, 0o755); err != nil {
 		return "", err
 	}
-	gomod := "module " + synth.Module + "\n\ngo 1.23.0\n"
+	gomod := "module " + spec.ModulePath() + "\n\ngo 1.23.0\n"
 	for _, r := range rs {
 		if strings.Contains(r.Src, `"github.com/lib/pq"`) {
 			// a source file imports lib/pq: resolved by the offline stand-in
